@@ -201,6 +201,28 @@ pub fn run(r: &mut Report) {
         if let Err(p) = no_panic(|| { let _ = in_toto_verify(&lay, owner_keys(&[&owner]), d.path().to_str().unwrap(), None); }) { panics.push(format!("sub-layout without directory: {}", p)); }
     }
     r.case("fuzz-link-directory", json!({"inputs": n}), "no panic", format!("{:?}", panics), panics.is_empty());
+    // a multi-party step (three functionaries, every listing order, thresholds 1..3) with every subset of their links present,
+    // agreeing or with one dissenter: a verdict, and the right one
+    {
+        let ks = [key(2), key(3), key(4)];
+        let mut bad4: Vec<String> = vec![]; let mut n4 = 0;
+        for order in [[0usize, 1, 2], [2, 1, 0], [1, 2, 0]] { for threshold in 1u32..=3 { for present in 1u32..8 { for dissenter in [None, Some(0usize), Some(2)] {
+            n4 += 1;
+            let d = tmpdir();
+            let listed: Vec<&in_toto::crypto::PrivateKey> = order.iter().map(|i| &ks[*i]).collect();
+            let mut delivered = vec![];
+            for i in 0..3 { if present & (1 << i) != 0 { let prod = if dissenter == Some(i) { 9 } else { 1 }; delivered.push((i, prod));
+                let lm = in_toto::models::LinkMetadataBuilder::new().name("a".into()).products(artifacts(&[("x", prod)])).byproducts(in_toto::models::byproducts::ByProducts::new().set_return_value(if dissenter == Some(i) { 2 } else { 0 })).build().unwrap();
+                write_link(d.path(), "a", ks[i].key_id(), &signed_link(&lm, &[&ks[i]])); } }
+            let lay = signed_layout(&layout(vec![step("a", threshold, &listed, allow_all(), allow_all())], vec![], &listed, 30), &[&owner]);
+            let res = no_panic(|| in_toto_verify(&lay, owner_keys(&[&owner]), d.path().to_str().unwrap(), None).is_ok());
+            let all_agree = delivered.iter().all(|(_, p)| *p == delivered[0].1);
+            // enough links, and (for a multi-party step) no dissent among them; threshold 1 needs no agreement
+            let expect = delivered.len() as u32 >= threshold && (threshold < 2 || all_agree);
+            if res != Ok(expect) && bad4.len() < 6 { bad4.push(format!("listed {:?} threshold {} delivered {:?}: {:?}, expected {}", order, threshold, delivered, res, expect)); }
+        } } } }
+        r.case("which-functionaries-delivered", json!({"inputs": n4}), "the right verdict from every combination (no panic)", format!("{:?}", bad4), bad4.is_empty());
+    }
     // every shape of layout (no steps, inspections only, steps only, both; as root and as a delegated sub-layout): a verdict, no panic
     {
         let mut panics3: Vec<String> = vec![]; let mut n3 = 0;
